@@ -17,6 +17,7 @@ namespace Sml
 inductive EncRes where
   | ok (bytes : List UInt8)
   | oom
+  | panic (site : String)
   deriving Repr, DecidableEq
 
 /-- the loop `for b in iter` of encode.rs:186-200; `none` = OutOfMemory -/
@@ -42,6 +43,8 @@ def encodeBuf (cap : Option Nat) (p : List UInt8) : EncRes :=
     | none => .oom
     | some buf =>
       let k := (4 - buf.len % 4) % 4
+      -- `&[0x0; 3][..num_padding_bytes]` (encode.rs:203): the slice index panics if it exceeds 3
+      if k > 3 then .panic "encode.rs:203 slice end out of range" else
       match buf.extend (([0, 0, 0] : List UInt8).take k) with
       | none => .oom
       | some buf =>
@@ -93,9 +96,11 @@ def nextFin (e : Enc) (n : Int) : Enc × EOut :=
   else if n = 4 then ({ e with st := .fin (n + 1) }, .byte 0x1a)
   else if n = 5 then ({ e with st := .fin (n + 1) }, .byte e.padGet)
   else if n < 8 then
-    -- `self.crc.clone().finalize().to_le_bytes()[(n - 6) as usize]`
-    let c := crcFinal e.crc
-    ({ e with st := .fin (n + 1) }, .byte (if n = 6 then c.toUInt8 else (c >>> 8).toUInt8))
+    -- `self.crc.clone().finalize().to_le_bytes()[(n - 6) as usize]`: indexing a `[u8; 2]`
+    -- panics for an index ≥ 2 (`(n - 6) as usize` of a negative `n - 6` is huge)
+    match (le16 (crcFinal e.crc))[(n - 6).toNat]? with
+    | some b => ({ e with st := .fin (n + 1) }, .byte b)
+    | Option.none => (e, .panic "encode.rs:121 index out of bounds")
   else if n = 8 then ({ e with st := .fin 8 }, .none)
   else (e, .panic "encode.rs:126 unreachable")
 
